@@ -356,6 +356,8 @@ func runC17(c *Ctx) {
 	c17FlagAlwaysSet(c)
 	protectionFlagTrusted(c, "O5")
 	protectionLookupURLFromURLFields(c, "O7")
+	everyCredentialValueWritten(c, "O2")
+	usernameIsDecodedUserinfo(c, "O6")
 }
 
 func c17Serialiser(c *Ctx, F *ssa.Function) {
